@@ -275,4 +275,169 @@ Section PdrSysProofs.
     split; [exact scube_unique |]. split; [exact Htr |].
     unfold has_bads_of. intros Hb. apply no_bads_sys. destruct (s_bads sy); [reflexivity | discriminate Hb].
   Qed.
+
+  (** ** the converse: a state-level path is realised by an execution of Spec/System.v *)
+  Lemma idx_of_upd_other r : forall rho n w v,
+      ~ In n (map fst r) -> idx_of r (upd_bv rho n w v) = idx_of r rho.
+  Proof.
+    intros rho n w v Hn. apply idx_of_agree. intros n' w' Hin. unfold upd_bv. cbn [rho_bv].
+    destruct (String.eqb n' n) eqn:E; [| reflexivity]. apply String.eqb_eq in E. subst n'.
+    exfalso. apply Hn. apply in_map_iff. exists (n, w'). now split.
+  Qed.
+
+  Lemma idx_of_env_of l : forall s, NoDup (map fst l) -> s < 2 ^ bits_of l -> idx_of l (env_of l s) = s.
+  Proof.
+    induction l as [| [n w] r IH]; intros s Hnd Hs.
+    - cbn in *. lia.
+    - cbn [map fst] in Hnd. inversion Hnd as [| ? ? Hn Hnd']; subst.
+      cbn [env_of idx_of]. unfold upd_bv at 1. cbn [rho_bv]. rewrite String.eqb_refl, N.eqb_refl. cbn [andb].
+      rewrite (idx_of_upd_other r _ n w _ Hn).
+      cbn [bits_of fold_right snd] in Hs. fold (bits_of r) in Hs. rewrite N.pow_add_r in Hs.
+      rewrite IH; [| exact Hnd' | apply N.div_lt_upper_bound; [apply pow2_nz | exact Hs]].
+      rewrite N.add_comm. symmetry. apply N.div_mod. apply pow2_nz.
+  Qed.
+
+  Lemma mk_sidx s i : s < 2 ^ sbits sy -> sidx sy (mk s i) = s.
+  Proof.
+    intros Hs. unfold sidx. rewrite (idx_of_agree ssigs _ _ (mk_states s i)).
+    apply idx_of_env_of; [apply nodup_parts | exact Hs].
+  Qed.
+
+  Lemma state_sym_in_ssigs st n w : In st (s_states sy) -> st_sym st = BVSymbol n w -> In (n, w) ssigs.
+  Proof.
+    intros Hst Hs. unfold PdrSys.ssigs, state_sigs. apply in_flat_map. exists st. split; [exact Hst |].
+    rewrite Hs. now left.
+  Qed.
+
+  (** inputs are never overwritten by a step *)
+  Lemma next_env_inputs rho f n w : In (n, w) isigs -> rho_bv (next_env sy rho f) n w = rho_bv f n w.
+  Proof.
+    intros Hin. rewrite next_env_fold. apply fold_next_other. intros st e Hst _ Hs.
+    pose proof (state_not_input n w (state_sym_in_ssigs st n w Hst Hs)) as E.
+    assert (sig_mem (n, w) isigs = true) by now apply sig_mem_In. congruence.
+  Qed.
+
+  (** the state part of a successor does not depend on the inputs of the free valuation *)
+  Lemma next_env_states rho f f' : agree ssigs f f' -> agree ssigs (next_env sy rho f) (next_env sy rho f').
+  Proof.
+    intros Hag n w Hin. rewrite !next_env_fold.
+    apply (fold_next_agree rho rho (s_states sy)) with (P := fun x => In x ssigs).
+    - reflexivity.
+    - intros n' w' Hp. now apply Hag.
+    - now left.
+  Qed.
+
+  (** if [steps_to rho s'] holds then the successor with ANY inputs [j] admitted by the constraints at
+      [s'] is a legal step to (s', j) *)
+  Lemma steps_to_any rho s' j :
+    env_wf rho -> s' < 2 ^ sbits sy -> steps_to sy rho s' = true ->
+    constraints_hold sy (mk s' j) = true ->
+    let e := next_env sy rho (mk s' j) in
+    env_wf e /\ constraints_hold sy e = true /\ agree sigs e (mk s' j).
+  Proof.
+    intros Hwf Hs Hst Hcj e. unfold steps_to in Hst. apply existsb_exists in Hst.
+    destruct Hst as (i' & _ & Hi'). apply andb_true_iff in Hi'. destruct Hi' as [Hidx _]. apply N.eqb_eq in Hidx.
+    assert (Hwfe : env_wf e) by (apply (next_env_wf sy Hcls); [exact Hwf | apply mk_wf]).
+    assert (Hag : agree sigs e (mk s' j)).
+    { intros n w Hin. rewrite sigs_split in Hin. apply in_app_or in Hin. destruct Hin as [Hin | Hin].
+      - unfold e. now apply next_env_inputs.
+      - (* states: the state number of e is s' *)
+        assert (Hse : sidx sy e = s').
+        { rewrite <- Hidx. unfold sidx. apply idx_of_agree. apply next_env_states.
+          apply agree_trans with (b := env_of ssigs s'); [apply mk_states | apply agree_sym, mk_states]. }
+        destruct nodup_parts as [_ Hns].
+        rewrite <- (env_of_idx ssigs e Hns (env_wf_bounded ssigs e Hwfe) n w Hin).
+        fold (sidx sy e). rewrite Hse. symmetry. now apply mk_states. }
+    split; [exact Hwfe |]. split; [| exact Hag]. now rewrite (constraints_agree sy Hcls _ _ Hag).
+  Qed.
+
+  Lemma st_val_bound (s : sstate sy) : st_val sy s < 2 ^ sbits sy.
+  Proof. destruct s as [x Hx]. cbn [st_val proj1_sig]. now apply N.ltb_lt. Qed.
+
+  Lemma path_exec d s :
+    sreach d s -> forall j, constraints_hold sy (mk (st_val sy s) j) = true ->
+    exists rho0 frees, length frees = d /\ is_initial sy rho0 /\
+                       (forall r, In r (run_from sy rho0 frees) -> env_wf r) /\
+                       forallb (constraints_hold sy) (run_from sy rho0 frees) = true /\
+                       agree sigs (last (run_from sy rho0 frees) env0) (mk (st_val sy s) j).
+  Proof.
+    induction 1 as [s0 s Hs | d s s' Hr IH Ht]; intros j Hcj.
+    - unfold st_step0, sys_step0 in Hs. apply existsb_exists in Hs. destruct Hs as (i & _ & Hi).
+      apply andb_true_iff in Hi. destruct Hi as [Hinit Hst]. unfold init_at in Hinit.
+      apply andb_true_iff in Hinit. destruct Hinit as [Hib Hc0].
+      destruct (steps_to_any (mk (st_val sy s0) i) (st_val sy s) j (mk_wf _ _) (st_val_bound s) Hst Hcj) as (Hwfe & Hce & Hag).
+      exists (mk (st_val sy s0) i), [mk (st_val sy s) j]. cbn [run_from length last forallb].
+      split; [reflexivity |]. split; [now apply (is_initial_b_spec sy Hcls) |].
+      split; [intros r [<- | [<- | []]]; [apply mk_wf | exact Hwfe] |].
+      split; [now rewrite Hc0, Hce | exact Hag].
+    - unfold st_trans, sys_trans in Ht. apply existsb_exists in Ht. destruct Ht as (i & _ & Hi).
+      apply andb_true_iff in Hi. destruct Hi as [Hci Hst].
+      destruct (IH i Hci) as (rho0 & frees & Hlen & Hinit & Hwf & Hc & Hag).
+      set (lst := last (run_from sy rho0 frees) env0) in *.
+      assert (Hlwf : env_wf lst) by (apply Hwf; apply last_in; apply run_from_ne).
+      destruct (steps_to_any (mk (st_val sy s) i) (st_val sy s') j (mk_wf _ _) (st_val_bound s') Hst Hcj) as (_ & _ & Hag2).
+      set (g := mk (st_val sy s') j).
+      assert (Hage : agree sigs (next_env sy lst g) g).
+      { apply agree_trans with (b := next_env sy (mk (st_val sy s) i) g); [| exact Hag2].
+        apply (next_env_agree sy Hcls); [exact Hag | apply agree_refl]. }
+      exists rho0, (frees ++ [g]). rewrite (run_from_snoc sy). fold lst.
+      split; [rewrite app_length; cbn; lia |]. split; [exact Hinit |]. split; [| split].
+      + intros r Hin. apply in_app_or in Hin. destruct Hin as [Hin | [<- | []]]; [now apply Hwf |].
+        apply (next_env_wf sy Hcls); [exact Hlwf | apply mk_wf].
+      + rewrite forallb_app, Hc. cbn [forallb andb]. rewrite (constraints_agree sy Hcls _ _ Hage). unfold g. now rewrite Hcj.
+      + rewrite last_last. exact Hage.
+  Qed.
+
+  Theorem unsafe_exec d : sunsafe d -> bad_reachable_within sy d.
+  Proof.
+    destruct d as [| d]; cbn [unsafe_at].
+    - intros (s & Hb). unfold st_bad0, sys_bad0 in Hb. apply existsb_exists in Hb. destruct Hb as (i & _ & Hi).
+      apply andb_true_iff in Hi. destruct Hi as [Hinit Hbad]. unfold init_at in Hinit.
+      apply andb_true_iff in Hinit. destruct Hinit as [Hib Hc0].
+      exists [mk (st_val sy s) i]. split; [| split; [cbn; lia | exact Hbad]].
+      exists (mk (st_val sy s) i), []. cbn [run_from forallb]. split; [reflexivity |].
+      split; [now apply (is_initial_b_spec sy Hcls) |]. split; [intros r [<- | []]; apply mk_wf | now rewrite Hc0].
+    - intros (s & Hr & Hb). unfold st_bad, sys_bad in Hb. apply existsb_exists in Hb. destruct Hb as (j & _ & Hj).
+      apply andb_true_iff in Hj. destruct Hj as [Hcj Hbad].
+      destruct (path_exec (S d) s Hr j Hcj) as (rho0 & frees & Hlen & Hinit & Hwf & Hc & Hag).
+      exists (run_from sy rho0 frees). split; [| split].
+      + exists rho0, frees. split; [reflexivity | split; [exact Hinit | split; [exact Hwf | exact Hc]]].
+      + rewrite (run_from_length sy). lia.
+      + change (some_bad sy (last (run_from sy rho0 frees) env0) = true).
+        now rewrite (some_bad_agree sy Hcls _ _ Hag).
+  Qed.
+
+  Theorem pdr_model_fail_real_sys (W : Type)
+          (solve : nat -> query slit -> answer slit (sstate sy)) (gen_on : bool) (bmc_result : bmc_answer W)
+          (fuel bf : nat) (w : W) (st' : pst slit (sstate sy)) :
+    (forall n q, truthful slit slit_eqb (sstate sy) (slit_holds sy) (st_bad0 sy) (st_step0 sy) (st_trans sy) (st_bad sy)
+                          q (solve n q)) ->
+    pdr slit slit_eqb (sstate sy) (scube sy) W solve gen_on has_bads_of bmc_result fuel bf = Ok (VFail W w, st') ->
+    bmc_result = BmcFail W w /\ exists d, (d <= MAX_FRAMES)%nat /\ bad_reachable_within sy d.
+  Proof.
+    intros Htr H.
+    destruct (pdr_model_fail_real slit slit_eqb (sstate sy) (scube sy) W solve gen_on has_bads_of bmc_result
+                                  (slit_holds sy) (st_bad0 sy) (st_step0 sy) (st_trans sy) (st_bad sy) fuel bf w st') as (Hb & d & Hd & Hu); [| exact H |].
+    - split; [exact scube_unique |]. split; [exact Htr |].
+      unfold has_bads_of. intros Hb. apply no_bads_sys. destruct (s_bads sy); [reflexivity | discriminate Hb].
+    - split; [exact Hb |]. exists d. split; [exact Hd | now apply unsafe_exec].
+  Qed.
+
+  Theorem pdr_model_definite_sys (W : Type)
+          (solve : nat -> query slit -> answer slit (sstate sy)) (gen_on : bool) (bmc_result : bmc_answer W)
+          (fuel bf : nat) :
+    (forall n q, truthful slit slit_eqb (sstate sy) (slit_holds sy) (st_bad0 sy) (st_step0 sy) (st_trans sy) (st_bad sy)
+                          q (solve n q)) ->
+    (forall n q, solve n q <> AUnknown slit (sstate sy)) ->
+    match pdr slit slit_eqb (sstate sy) (scube sy) W solve gen_on has_bads_of bmc_result fuel bf with
+    | Err _ | Panic _ => False
+    | Ok _ | Fuel => True
+    end.
+  Proof.
+    intros Htr Htot.
+    apply (pdr_model_no_error slit slit_eqb (sstate sy) (scube sy) W solve gen_on has_bads_of bmc_result
+                              (slit_holds sy) (st_bad0 sy) (st_step0 sy) (st_trans sy) (st_bad sy) fuel bf); [| exact Htot].
+    split; [exact scube_unique |]. split; [exact Htr |].
+    unfold has_bads_of. intros Hb. apply no_bads_sys. destruct (s_bads sy); [reflexivity | discriminate Hb].
+  Qed.
 End PdrSysProofs.
